@@ -445,10 +445,25 @@ func resultInfo(d *declInfo) (obj types.Object, lits []*ast.CompositeLit) {
 // rangeSources maps range variables to the receiver field they iterate.
 func rangeSources(d *declInfo, src types.Object) map[types.Object]string {
 	out := map[types.Object]string{}
+	// a local bound to one field of the source stands for that field: contacts := p.Contacts
+	for o, def := range singleDefs(d.pkg, d.fd.Body) {
+		if f, ok := fieldOf(d.pkg, ast.Unparen(def), src); ok {
+			out[o] = f
+		}
+	}
 	ast.Inspect(d.fd.Body, func(n ast.Node) bool {
 		rs, ok := n.(*ast.RangeStmt)
 		if !ok {
 			return true
+		}
+		if lo := objOf(d.pkg, rs.X); lo != nil {
+			if f, isAlias := out[lo]; isAlias {
+				for _, e := range []ast.Expr{rs.Key, rs.Value} {
+					if o := objOf(d.pkg, e); o != nil {
+						out[o] = f
+					}
+				}
+			}
 		}
 		if f, ok := fieldOf(d.pkg, rs.X, src); ok {
 			for _, e := range []ast.Expr{rs.Key, rs.Value} {
